@@ -8,6 +8,7 @@ import drv_leap
 import drv_angle
 import drv_heap
 import drv_epoch
+import drv_curvefit
 
 YMIN, YMAX = -4712, 6000
 
@@ -299,4 +300,38 @@ def plan_C02(tier, seed):
         assumptions=["== and != are checked on pairs that are identical or more than 1e-6 day apart (the class compares with a 1e-10 tolerance)"])
 
 
-PLANS = {"C02": plan_C02, "C03": plan_C03, "C04": plan_C04, "C10": plan_C10, "C01": plan_C01, "C16": plan_C16, "C19": plan_C19}
+def _nt_c17(ev):
+    return (ev["k"], ev["basis"], ev["form"], tuple(ev.get("xf", ())), tuple(ev.get("yf", ())))
+
+
+def plan_C17(tier, seed):
+    T = ("Trace_CurveFit", "Trace.cfg")
+    if tier == "quick":
+        nsh, per, grid = 16, 220, [(3, 1, 2, 8)]
+        mcs = [MC("MC_CurveFit", "MC_CurveFit.cfg", workers=4, heap="2g", env={"CF_NP": "3", "CF_LO": "1", "CF_HI": "2"},
+                  note="all 3-point data sets, x,y in -1..2")]
+    else:
+        nsh, per, grid = 48, 1500, [(3, 2, 2, 16), (4, 1, 1, 8)]
+        mcs = [MC("MC_CurveFit", "MC_CurveFit.cfg", workers=4, heap="2g", env={"CF_NP": "3", "CF_LO": "2", "CF_HI": "2"},
+                  note="all 3-point data sets, x,y in -2..2"),
+               MC("MC_CurveFit", "MC_CurveFit.cfg", workers=4, heap="2g", env={"CF_NP": "4", "CF_LO": "1", "CF_HI": "1"},
+                  note="all 4-point data sets, x,y in -1..1")]
+    sh = [Shard("fit_%02d" % i, drv_curvefit.gen_fit, dict(seed=seed, shard=i, n=per), *T) for i in range(nsh)]
+    for (np_, lo, hi, parts) in grid:
+        sh += [Shard("grid%d_%02d" % (np_, i), drv_curvefit.gen_grid, dict(np_=np_, lo=lo, hi=hi, part=i, parts=parts), *T)
+               for i in range(parts)]
+    return dict(
+        mc=mcs, shards=sh, level="model_checking", exhaustive=False, nontrivial=_nt_c17, mc_timeout=2400,
+        rule="TLC checks, on every small integer data set, that the Cramer formulas solve the normal equations, that the "
+             "determinant vanishes exactly on degenerate data and Cauchy-Schwarz with equality iff collinear; every one of those "
+             "data sets is then run through the real class (linear, quadratic, correlation). Seeded data sets of 2-200 points on "
+             "a 1/4 grid (spread, small, clustered, equally spaced, degenerate; noiseless line/parabola, constant, noisy), "
+             "shuffled and supplied as lists/tuples/flat arguments/set()/copy: TLC recomputes sums and determinants exactly in "
+             "fixed point and compares the returned coefficients cross-multiplied (relative 1e-6) when the exact conditioning "
+             "predicate holds; general_fitting with (x^2,x,1), (x,1) and trigonometric/exponential bases (residual "
+             "orthogonality on witness basis values, Gram-conditioned). Distinct case = (call, basis, form, data).",
+        assumptions=["'well-conditioned' is decided exactly by the spec: |det| >= 1e-7 of the sum of its cancelling terms",
+                     "correlation coefficient may exceed 1 in magnitude by at most 1e-12 (one float ulp is not reported)"])
+
+
+PLANS = {"C17": plan_C17, "C02": plan_C02, "C03": plan_C03, "C04": plan_C04, "C10": plan_C10, "C01": plan_C01, "C16": plan_C16, "C19": plan_C19}
